@@ -436,6 +436,7 @@ class Context:
 
     def concretize_int(self, x):
         """Fork over the feasible integer values of x (used by __index__)."""
+        self.n_decisions += 1
         if self.pos < len(self.log):
             ent = self.log[self.pos]
             self.pos += 1
